@@ -319,7 +319,7 @@ func checkC19(c *Ctx) {
 						default:
 							why = "narrowing conversion"
 						}
-						r.Check(!lossy, "R19e", fmt.Sprintf("%s: rule %s value conversion %s", fn.Name(), rule, cv), rpos,
+						r.Check(!lossy, "R19e", fmt.Sprintf("rule %s value conversion %s", rule, cv), rpos,
 							fmt.Sprintf("%s: the value of rule %s passes through %s: %s", fn.Name(), rule, cv, why))
 					}
 				} else if want, ok := c19Format[rule]; ok {
